@@ -27,7 +27,7 @@ Spec == Init /\ [][Next]_vars
 
 -----------------------------------------------------------------------------
 (* raw line structure of the input, computed once per state *)
-DashLike == {"-", "FIGDASH", "ENDASH", "EMDASH", "HYPHEN"}
+DashLike == {"-", "FIGDASH", "ENDASH", "EMDASH", "HYPHEN", "NBHYPHEN", "HBAR", "MINUS"}
 RECURSIVE SplitFrom(_, _, _)
 SplitFrom(in, i, cur) == IF i > Len(in) THEN <<cur>>
                          ELSE IF in[i] = NL THEN <<cur>> \o SplitFrom(in, i + 1, <<>>)
@@ -68,7 +68,7 @@ Decorate == LET ref == TokT(In)  lo == LineOfSeq(In)  ex == ExemptSeq(In) IN
             \A i \in 1..Len(In) : (LineStart(In, i) /\ ~ex[lo[i]]) => \A d \in Decos : SameAs(InsBefore(In, i, d), ref)
 Typographic == LET ref == TokT(In)  lo == LineOfSeq(In)  ex == ExemptSeq(In) IN
             \A i \in 1..Len(In) : ~ex[lo[i]] =>
-               /\ In[i] = "-" => SameAs([In EXCEPT ![i] = "ENDASH"], ref)
+               /\ In[i] = "-" => \A d \in {"ENDASH", "NBHYPHEN", "HBAR"} : SameAs([In EXCEPT ![i] = d], ref)     \* the dash block U+2010..U+2015
                /\ In[i] = "'" => SameAs([In EXCEPT ![i] = "RQUOTE"], ref)
 (* inserting an empty line before a line shifts the later lines by one and changes nothing else *)
 BagOfSeq(sq) == [x \in {sq[j] : j \in 1..Len(sq)} |-> Cardinality({j \in 1..Len(sq) : sq[j] = x})]
